@@ -44,6 +44,49 @@ CONSTRUCT = C.Kind("construct", impl=_impl_construct, model=lambda a: f"accepts 
                    classify=lambda a, o: f"{a[0]}:{'accepted' if o == '1' else 'refused'}", nontrivial=lambda a, o: (a[0], a[1], o))
 
 
+def _impl_extra(a):
+    """the same construction with something more than the documented arguments (one more positional argument, `category=`, a later
+    dataclasses.replace): whatever the class makes of it, a type of another category must not come out as an instance"""
+    import dataclasses
+    import aioswitcher.device as d
+    cls_name, tname, how, cat = a
+    t = d.DeviceType[tname]
+    extra = d.DeviceCategory[cat]
+    cls = getattr(d, cls_name)
+    try:
+        if how == "positional":
+            ok = _mk(cls_name, t)       # the documented arguments first, to learn the arity
+            fields = [getattr(ok, f.name) for f in dataclasses.fields(ok) if f.init][:len(dataclasses.fields(ok))]
+            o = cls(*fields, extra)
+        elif how == "keyword":
+            base = _mk(cls_name, d.DeviceType[_own_type(cls_name)])
+            kw = {f.name: getattr(base, f.name) for f in dataclasses.fields(base) if f.init}
+            kw["device_type"] = t
+            kw["category"] = extra
+            o = cls(**kw)
+        else:
+            base = _mk(cls_name, d.DeviceType[_own_type(cls_name)])
+            o = dataclasses.replace(base, device_type=t, category=extra) if how == "replace+category" else dataclasses.replace(base, device_type=t)
+        return "1" if o.device_type is t else "0"
+    except Exception:
+        return "0"
+
+
+def _own_type(cls_name):
+    return {"SwitcherPowerPlug": "POWER_PLUG", "SwitcherWaterHeater": "V4", "SwitcherThermostat": "BREEZE", "SwitcherShutter": "RUNNER"}[cls_name]
+
+
+def _judge_extra(a, out):
+    import aioswitcher.device as d
+    own = {"SwitcherPowerPlug": "POWER_PLUG", "SwitcherWaterHeater": "WATER_HEATER", "SwitcherThermostat": "THERMOSTAT", "SwitcherShutter": "SHUTTER"}[a[0]]
+    wrong = d.DeviceType[a[1]].category.name != own
+    return [("c06gate -", f"a {a[0]} of type {a[1]} was constructed ({a[2]}, {a[3]})" if (wrong and out == "1") else "0")]
+
+
+EXTRA = C.Kind("construct-with-more-than-the-documented-arguments", impl=_impl_extra, judge=_judge_extra,
+               classify=lambda a, o: f"{a[2]}:{'constructed' if o == '1' else 'refused'}", nontrivial=lambda a, o: (a[0], a[1], a[2], o))
+
+
 def _impl_ports(tname):
     import aioswitcher.device as d
     from aioswitcher.api import SWITCHER_DEVICE_TO_TCP_PORT
@@ -68,7 +111,7 @@ def _impl_codes(_):
 CODES = C.Kind("codes", impl=_impl_codes, model=lambda _: "codes", judge=lambda _, o: [("c19codes " + o, "1")],
                classify=lambda a, o: "codes", nontrivial=lambda a, o: o)
 
-KINDS = {"construct": CONSTRUCT, "ports": PORTS, "codes": CODES}
+KINDS = {"construct": CONSTRUCT, "ports": PORTS, "codes": CODES, "construct-with-more-than-the-documented-arguments": EXTRA}
 
 
 def _traffic(ctx):
@@ -123,6 +166,10 @@ def streams(ctx):
         ctx.rng.shuffle(q)
         again += q
     ctx.run_cases(CONSTRUCT, "constructions-in-other-orders", again, exhaustive=False, sample_every=97)
+    cats = [c.name for c in d.DeviceCategory]
+    ctx.run_cases(EXTRA, "constructions-with-extra-arguments",
+                  [(c, t, how, cat) for c in classes for t in types for how in ("positional", "keyword", "replace", "replace+category") for cat in cats],
+                  exhaustive=True, sample_every=97)
     ctx.run_cases(PORTS, "ports-of-every-type", types, exhaustive=True)
     # the tables and guards are facts about the library, not about what it has been doing: look again after it has handled traffic -
     # broadcasts of every family through a bridge on the well-known and on other ports, and datagrams whose decoding fails half-way
